@@ -231,7 +231,7 @@ def explained_by(case, **flags):
     return l not in base and l in dev
 
 
-ALL_DEV = dict(floats=True, root_scalar_err=True, path_operand_err=True, contains_subset=True)
+ALL_DEV = dict(floats=True, root_scalar_err=True, path_operand_err=True, contains_subset=True, size_missing_err=True)
 
 
 def only_needs(case, flag):
@@ -279,6 +279,11 @@ def _(prop, case, v):
     if case.get("kind") == "update" and v.get("sig") == "update-rejected":
         return mentions_root_scalar_path(case)
     return case.get("kind") == "match" and v.get("sig") == "truth-value" and only_needs(case, "root_scalar_err")
+
+
+@rule("KF-C06-size-of-missing")
+def _(prop, case, v):
+    return case.get("kind") == "match" and v.get("sig") == "truth-value" and only_needs(case, "size_missing_err")
 
 
 @rule("KF-C06-path-operand")
